@@ -8,7 +8,7 @@ from common import (OUT, Report, ToolError, build_harness, coverage_zero_actions
                     log, rbxv, replay_lines, tlc, tlc_violation, validate_trace, write_evidence)
 
 INVS = "TypeOK WellFormed WalkOK UidDistinct UidSetExact UidSeen"
-PROPS = "FrameLabel FrameRefp DeadStaysDead KidsFrame TransferFrame DestroyFrame InsertFrame UidStable CloneIso"
+PROPS = "FrameLabel FrameRefp DeadStaysDead KidsFrame TransferFrame DestroyFrame InsertFrame UidStable CloneIso CloneEachComplete"
 
 
 def write_cfg(path, spec, consts, invariants="", properties="", constraint=""):
